@@ -1110,6 +1110,166 @@ Predicted == phase = "done" /\ Predict => m.status \in {"done", "unk"}
 
 
 -----------------------------------------------------------------------------
+\* Part III -- the spec's own typing judgement.  ProgGen builds programs from typed menus; WellTyped is
+\* written independently of the menus (types of expressions, scoping, placement of break / continue /
+\* return) and is checked by TLC on every complete program (invariant WellTypedInv).
+TLook(tenv, x) == IF \E i \in 1..Len(tenv) : tenv[i].x = x
+                  THEN tenv[CHOOSE i \in 1..Len(tenv) : tenv[i].x = x /\ \A j \in 1..(i - 1) : tenv[j].x # x].t
+                  ELSE "ERR"
+TBind(tenv, xs, ts) == [i \in 1..Len(xs) |-> [x |-> xs[Len(xs) + 1 - i], t |-> ts[Len(xs) + 1 - i]]] \o tenv
+Nilable == {"[]int", "map[string]int", "*P", "any", "func() int", "func(int) int", "func()"}
+FnTypeOf(sig) ==
+  LET pt == [i \in 1..Len(sig.ps) |-> sig.ps[i].t]  rt == [i \in 1..Len(sig.rs) |-> sig.rs[i].t] IN
+  CASE pt = <<>> /\ rt = <<"int">> -> "func() int"
+    [] pt = <<"int">> /\ rt = <<"int">> -> "func(int) int"
+    [] pt = <<>> /\ rt = <<>> -> "func()"
+    [] OTHER -> "ERR"
+MethodSig(name) == CASE name = "Get" -> [ps |-> <<>>, r |-> "int"]
+                     [] name = "Inc" -> [ps |-> <<"int">>, r |-> "void"]
+                     [] name = "With" -> [ps |-> <<"int">>, r |-> "P"]
+                     [] OTHER -> [ps |-> <<"ERR">>, r |-> "ERR"]
+
+RECURSIVE TypeOf(_, _)
+TypeOf(e, tenv) ==
+  LET T(i) == TypeOf(e.a[i], tenv)
+      ArgsAre(from, ts) == Len(e.a) - from + 1 = Len(ts) /\ \A i \in 1..Len(ts) : T(from + i - 1) = ts[i]
+  IN
+  CASE e.k = "int" -> "int" [] e.k = "str" -> "string" [] e.k = "bool" -> "bool" [] e.k = "nil" -> "nil"
+    [] e.k = "var" -> TLook(tenv, e.s)
+    [] e.k = "par" -> T(1)
+    [] e.k = "un" -> IF e.s = "-" /\ T(1) = "int" THEN "int" ELSE IF e.s = "!" /\ T(1) = "bool" THEN "bool" ELSE "ERR"
+    [] e.k = "bin" ->
+         IF e.s \in {"&&", "||"} THEN (IF T(1) = "bool" /\ T(2) = "bool" THEN "bool" ELSE "ERR")
+         ELSE IF e.s \in {"==", "!="}
+              THEN (IF (T(1) = T(2) /\ T(1) \in {"int", "string", "bool", "P", "*P"})
+                       \/ (T(2) = "nil" /\ T(1) \in Nilable) \/ (T(1) = "nil" /\ T(2) \in Nilable) THEN "bool" ELSE "ERR")
+         ELSE IF e.s \in {"<", "<=", ">", ">="} THEN (IF T(1) = T(2) /\ T(1) \in {"int", "string"} THEN "bool" ELSE "ERR")
+         ELSE IF e.s = "+" /\ T(1) = "string" /\ T(2) = "string" THEN "string"
+         ELSE IF e.s \in {"+", "-", "*", "/", "%", "&", "|", "^", "<<", ">>", "&^"} /\ T(1) = "int" /\ T(2) = "int" THEN "int"
+         ELSE "ERR"
+    [] e.k = "len" -> IF T(1) \in {"string", "[]int", "map[string]int"} THEN "int" ELSE "ERR"
+    [] e.k = "cap" -> IF T(1) = "[]int" THEN "int" ELSE "ERR"
+    [] e.k = "idx" -> IF T(1) = "[]int" /\ T(2) = "int" THEN "int"
+                      ELSE IF T(1) = "map[string]int" /\ T(2) = "string" THEN "int"
+                      ELSE IF T(1) = "string" /\ T(2) = "int" THEN "byte" ELSE "ERR"
+    [] e.k = "sli" -> IF T(1) \in {"[]int", "string"} /\ \A i \in 2..Len(e.a) : T(i) = "int" THEN T(1) ELSE "ERR"
+    [] e.k = "slit" -> IF e.s = "int" /\ \A i \in 1..Len(e.a) : T(i) = "int" THEN "[]int" ELSE "ERR"
+    [] e.k = "mlit" -> IF Len(e.a) % 2 = 0 /\ \A i \in 1..Len(e.a) : T(i) = (IF i % 2 = 1 THEN "string" ELSE "int")
+                       THEN "map[string]int" ELSE "ERR"
+    [] e.k = "make" -> IF e.s = "[]int" /\ Len(e.a) \in {1, 2} /\ \A i \in 1..Len(e.a) : T(i) = "int" THEN "[]int"
+                       ELSE IF e.s = "map[string]int" /\ e.a = <<>> THEN e.s ELSE "ERR"
+    [] e.k = "plit" -> IF e.a = <<>> \/ (Len(e.a) = 2 /\ T(1) = "int" /\ T(2) = "string")
+                       THEN (IF e.s = "P" THEN "P" ELSE IF e.s = "&P" THEN "*P" ELSE "ERR") ELSE "ERR"
+    [] e.k = "sel" -> IF T(1) \notin {"P", "*P"} THEN "ERR"
+                      ELSE IF e.s = "X" THEN "int" ELSE IF e.s = "S" THEN "string"
+                      ELSE IF e.s = "Get" THEN "func() int" ELSE "ERR"
+    [] e.k = "addr" -> IF e.a[1].k = "var" /\ T(1) = "P" THEN "*P" ELSE "ERR"
+    [] e.k = "deref" -> IF T(1) = "*P" THEN "P" ELSE "ERR"
+    [] e.k = "append" -> IF T(1) # "[]int" THEN "ERR"
+                         ELSE IF e.s = "..." THEN (IF Len(e.a) = 2 /\ T(2) = "[]int" THEN "[]int" ELSE "ERR")
+                         ELSE IF \A i \in 2..Len(e.a) : T(i) = "int" THEN "[]int" ELSE "ERR"
+    [] e.k = "call" -> IF T(1) = "func() int" /\ Len(e.a) = 1 THEN "int"
+                       ELSE IF T(1) = "func(int) int" /\ ArgsAre(2, <<"int">>) THEN "int"
+                       ELSE IF T(1) = "func()" /\ Len(e.a) = 1 THEN "void" ELSE "ERR"
+    [] e.k = "mcall" -> IF T(1) \in {"P", "*P"} /\ ArgsAre(2, MethodSig(e.s).ps)
+                           /\ (MethodSig(e.s).r # "void" \/ e.a[1].k = "var")    \* pointer receiver needs an addressable operand
+                        THEN MethodSig(e.s).r ELSE "ERR"
+    [] e.k = "copy" -> IF ArgsAre(1, <<"[]int", "[]int">>) THEN "int" ELSE "ERR"
+    [] e.k = "delete" -> IF ArgsAre(1, <<"map[string]int", "string">>) THEN "void" ELSE "ERR"
+    [] e.k = "recover" -> "any"
+    [] e.k = "println" -> IF \A i \in 1..Len(e.a) : T(i) \notin {"ERR", "void"} THEN "void" ELSE "ERR"
+    [] OTHER -> "ERR"
+
+Ctx(loop, brk, labels, rs, named) == [loop |-> loop, brk |-> brk, labels |-> labels, rs |-> rs, named |-> named]
+Assignable(e) == e.k \in {"var", "idx", "sel"}
+RECURSIVE OKStmts(_, _, _)
+OKStmts(ss, tenv, ctx) ==
+  IF ss = <<>> THEN TRUE ELSE
+  LET s == ss[1]
+      rest == Tail(ss)
+      TE(e) == TypeOf(e, tenv)
+      Val(t) == t \notin {"ERR", "void", "nil"}
+      InLoop(lb) == Ctx(TRUE, TRUE, ctx.labels \cup (IF lb = "" THEN {} ELSE {lb}), ctx.rs, ctx.named)
+  IN
+  CASE s.k = "decl" ->
+         LET ts == IF Len(s.x) = 2 /\ Len(s.e) = 1
+                   THEN (IF s.e[1].k = "idx" /\ TE(s.e[1].a[1]) = "map[string]int" /\ TE(s.e[1].a[2]) = "string"
+                         THEN <<"int", "bool">> ELSE <<"ERR", "ERR">>)
+                   ELSE [i \in 1..Len(s.e) |-> TE(s.e[i])]
+         IN Len(ts) = Len(s.x) /\ (\A i \in 1..Len(ts) : Val(ts[i]) /\ ts[i] # "byte") /\ OKStmts(rest, TBind(tenv, s.x, ts), ctx)
+    [] s.k = "var" -> (s.n = 1 => TE(s.e[1]) = s.s) /\ OKStmts(rest, TBind(tenv, s.x, <<s.s>>), ctx)
+    [] s.k = "const" -> TE(s.e[1]) = "int" /\ OKStmts(rest, TBind(tenv, s.x, <<"int">>), ctx)
+    [] s.k = "asg" ->
+         /\ 2 * s.n = Len(s.e) \/ (Len(s.e) = s.n + 1)
+         /\ \A i \in 1..s.n : Assignable(s.e[i])
+         /\ (2 * s.n = Len(s.e) => \A i \in 1..s.n :
+                (s.e[i].k = "var" /\ s.e[i].s = "_" /\ Val(TE(s.e[s.n + i]))) \/ (Val(TE(s.e[i])) /\ TE(s.e[i]) = TE(s.e[s.n + i])))
+         /\ OKStmts(rest, tenv, ctx)
+    [] s.k = "opasg" -> Assignable(s.e[1]) /\ TE(s.e[1]) = TE(s.e[2])
+                        /\ (TE(s.e[1]) = "int" \/ (TE(s.e[1]) = "string" /\ s.s = "+")) /\ OKStmts(rest, tenv, ctx)
+    [] s.k = "inc" -> Assignable(s.e[1]) /\ TE(s.e[1]) = "int" /\ OKStmts(rest, tenv, ctx)
+    [] s.k = "print" -> (\A i \in 1..Len(s.e) : Val(TE(s.e[i]))) /\ OKStmts(rest, tenv, ctx)
+    [] s.k = "expr" -> s.e[1].k \in {"call", "mcall", "delete", "recover", "copy"} /\ TE(s.e[1]) # "ERR" /\ OKStmts(rest, tenv, ctx)
+    [] s.k = "break" -> ctx.brk /\ (s.s = "" \/ s.s \in ctx.labels) /\ OKStmts(rest, tenv, ctx)
+    [] s.k = "continue" -> ctx.loop /\ (s.s = "" \/ s.s \in ctx.labels) /\ OKStmts(rest, tenv, ctx)
+    [] s.k = "ret" -> /\ \/ (s.e = <<>> /\ (ctx.rs = <<>> \/ ctx.named))
+                         \/ (Len(s.e) = Len(ctx.rs) /\ s.e # <<>> /\ \A i \in 1..Len(s.e) : TE(s.e[i]) = ctx.rs[i])
+                      /\ OKStmts(rest, tenv, ctx)
+    [] s.k = "defer" -> s.e[1].k \in {"call", "println"} /\ TE(s.e[1]) # "ERR" /\ OKStmts(rest, tenv, ctx)
+    [] s.k = "panic" -> Val(TE(s.e[1])) /\ OKStmts(rest, tenv, ctx)
+    [] s.k = "exit" -> TE(s.e[1]) = "int" /\ OKStmts(rest, tenv, ctx)
+    [] s.k = "if" ->
+         LET te2 == IF s.n = 1 THEN TBind(tenv, <<s.x[1]>>, <<TE(s.e[2])>>) ELSE tenv IN
+         /\ (s.n = 1 => Val(TE(s.e[2])))
+         /\ TypeOf(s.e[1], te2) = "bool"
+         /\ OKStmts(s.b[2], te2, ctx) /\ OKStmts(s.b[3], te2, ctx) /\ OKStmts(rest, tenv, ctx)
+    [] s.k = "block" -> OKStmts(s.b[1], tenv, ctx) /\ OKStmts(rest, tenv, ctx)
+    [] s.k = "for" ->
+         LET te2 == IF s.n = 3 THEN TBind(tenv, <<s.x[1]>>, <<"int">>) ELSE tenv IN
+         /\ (s.n # 0 => TLook(te2, s.x[1]) = "int" /\ TypeOf(s.e[1], te2) = "int")
+         /\ OKStmts(s.b[1], te2, InLoop(s.s)) /\ OKStmts(rest, tenv, ctx)
+    [] s.k = "range" ->
+         LET rt == TE(s.e[1])
+             kv == CASE rt = "[]int" -> <<"int", "int">> [] rt = "string" -> <<"int", "rune">>
+                     [] rt = "map[string]int" -> <<"string", "int">> [] OTHER -> <<"ERR", "ERR">>
+             idx == {i \in 1..Len(s.x) : s.x[i] \notin {"", "_"}}
+             names == SelectSeq(s.x, LAMBDA nm : nm \notin {"", "_"})
+             tys == [j \in 1..Len(names) |-> kv[CHOOSE i \in idx : Cardinality({q \in idx : q < i}) = j - 1]]
+         IN kv[1] # "ERR" /\ OKStmts(s.b[1], TBind(tenv, names, tys), InLoop(s.s)) /\ OKStmts(rest, tenv, ctx)
+    [] s.k = "switch" ->
+         LET tt == IF s.n = 1 THEN TE(s.e[1]) ELSE "bool"
+             cs == s.b[1]
+         IN /\ Val(tt)
+            /\ \A i \in 1..Len(cs) :
+                  /\ cs[i].k = "case"
+                  /\ \A j \in 1..Len(cs[i].e) : TE(cs[i].e[j]) = tt
+                  /\ (cs[i].n = 1 => i < Len(cs))                                  \* no fallthrough in the last clause
+                  /\ OKStmts(cs[i].b[1], tenv, Ctx(ctx.loop, TRUE, ctx.labels, ctx.rs, ctx.named))
+            /\ Cardinality({i \in 1..Len(cs) : cs[i].e = <<>>}) <= 1
+            /\ OKStmts(rest, tenv, ctx)
+    [] s.k = "func" ->
+         LET ps == s.sig.ps  rs == s.sig.rs
+             nm == SelectSeq(rs, LAMBDA en : en.x # "")
+             te2 == TBind(TBind(tenv, [i \in 1..Len(ps) |-> ps[i].x], [i \in 1..Len(ps) |-> ps[i].t]),
+                          [i \in 1..Len(nm) |-> nm[i].x], [i \in 1..Len(nm) |-> nm[i].t])
+             c2 == Ctx(FALSE, FALSE, {}, [i \in 1..Len(rs) |-> rs[i].t], nm # <<>>)
+             body == s.b[1]
+         IN /\ OKStmts(body, te2, c2)
+            /\ (rs # <<>> => body # <<>> /\ body[Len(body)].k \in {"ret", "panic"})   \* terminating statement
+            /\ IF s.n = 0 THEN FnTypeOf(s.sig) # "ERR" /\ OKStmts(rest, TBind(tenv, <<s.x[1]>>, <<FnTypeOf(s.sig)>>), ctx)
+               ELSE s.sig = NoSig /\ OKStmts(rest, tenv, ctx)
+    [] OTHER -> FALSE
+
+WellTyped(prog) ==
+  /\ OKStmts(prog.body, <<>>, Ctx(FALSE, FALSE, {}, <<>>, FALSE))
+  /\ \A i \in 1..Len(prog.funcs) :
+        LET f == prog.funcs[i] IN
+        OKStmts(f.b, TBind(<<[x |-> f.rx, t |-> f.rt]>>, [j \in 1..Len(f.sig.ps) |-> f.sig.ps[j].x], [j \in 1..Len(f.sig.ps) |-> f.sig.ps[j].t]),
+                Ctx(FALSE, FALSE, {}, [j \in 1..Len(f.sig.rs) |-> f.sig.rs[j].t], FALSE))
+\* checked once per program: in the first state after the derivation is complete
+WellTypedInv == ((phase = "run" /\ m.steps = 0) \/ (phase = "mut" /\ g.muts = <<>>)) => WellTyped(g.prog)
+
+-----------------------------------------------------------------------------
 \* Part IV -- Mutate (C06, C07): near-miss programs.  A mutation is (kind, idx): the idx-th SITE of that
 \* kind in the pre-order walk of main's body (statement, then its expressions left to right, then its
 \* blocks in order).  TLC enumerates every (kind, idx) -- and every ordered pair for MaxMut = 2 -- over
